@@ -1,34 +1,63 @@
 """C16 — deriving checkers and validator classes never disturbs the originals.
 
-E2: all sequences of derivation operations (depth 3 quick / 4 thorough) over a
-pool that starts with the four draft classes, their type checkers, the
-FormatChecker class and the draft format checkers.  After the last operation
-of every history EVERY object that exists (initial or derived) is re-probed
-with a fixed battery and compared with the vector predicted by a persistent-map
-model (recorded at creation; derived objects' vectors are predicted from their
-parent's).  Global registries are snapshotted and restored around every history.
+E2, two families of derivation histories, executed in forked children of a process that has never used the
+package (no check_schema call, no validation, no probe): a history starts from the state a fresh
+interpreter has after the imports and the ORDER OF FIRST USE of every class / checker is exactly the order
+the history prescribes.  State the code under test keeps outside the objects of a history (a module-level
+table, a class attribute) is therefore not pre-populated by the harness.  The vectors the initial objects
+are compared with are recorded the same way: each initial object alone, in its own pristine child.
+Every F2 history and every F1 history of length <= 2 has a child of its own; the longer F1 extensions of one
+2-prefix run one after the other in one child (registries restored in between, restoration verified).
+
+F1  all sequences of derivation operations (depth 3 quick / 4 thorough) over a pool that starts with the
+    four draft classes, their type checkers, the FormatChecker class and the draft format checkers; one
+    operation (`use-new`) probes the derived objects, newest first, in the middle of a history.  After the
+    last operation every object that exists is re-probed (initial objects first) and compared with the
+    vector predicted by a persistent-map model.
+F2  first-use orders between a class and the classes derived from it, for every keyword the bundled
+    metaschemas use (plus pattern / required / dependencies), overridden by a function that never fails
+    (`nop`), by one that always fails (`fail`), left out of the keyword table (`without`), and for two
+    changed type checkers: all sequences (depth 2 quick / 3 thorough) of {derive from the draft class,
+    derive from the last derived class, derive + register a version, extend with no change, use the last
+    class, use the draft class}.  The battery is check_schema on schemas that single metaschema keywords
+    reject plus one validation probe per keyword; what a derived class must answer is computed by the
+    reference evaluator (mc/ref/spec.py) on the metaschema *file* with the overridden keyword deleted /
+    replaced by an unsatisfiable one (entries the model says are unaffected must equal the parent's).
 """
-import copy
+import gc
+import json
+import os
+import pickle
+import sys
+import traceback
 import warnings
+import zlib
 
 import jsonschema
-from jsonschema import FormatChecker, RefResolver, _format, _types, exceptions, validators as jsv
+from jsonschema import (Draft3Validator, Draft4Validator, Draft6Validator, Draft7Validator, FormatChecker,
+                        RefResolver, _format, _types, exceptions, validators as jsv)
 
-from mc.explore import history
-from mc.props import _e1
+from mc.ref import spec          # pure reference evaluator: shares no code or state with the package
 
 ID = "C16"
 LEVEL = "model_checking"
+
+CLS = {3: Draft3Validator, 4: Draft4Validator, 6: Draft6Validator, 7: Draft7Validator}
+DRAFTS = (3, 4, 6, 7)
 
 TYPE_NAMES = ["any", "array", "boolean", "integer", "null", "number", "object", "string", "foo"]
 TYPE_VALUES = [None, True, False, 0, 1.0, 1.5, "", "a", [], [1], {}, {"a": 1}, (1,)]
 FMT_NAMES = ["ipv4", "ip-address", "date", "email", "regex", "time", "fmt-a", "fmt-b", "fmt-cls", "nope"]
 FMT_VALUES = ["127.0.0.1", "x", "2020-01-01", "ok-a", "ok-cls", 3]
 
-STORE = {"http://x.invalid/dir/other.json": {"t": {"type": "integer"}},
-         "http://y.invalid/dir/other.json": {"t": {"type": "string"}}}
+
+def make_store():
+    return {"http://x.invalid/dir/other.json": {"t": {"type": "integer"}},
+            "http://y.invalid/dir/other.json": {"t": {"type": "string"}}}
+
 
 # (tag, schema, instances): tag = the feature the probe exercises
+F1_META = [{"type": "integer"}, {"type": 12}, {"minLength": -1}]
 CLASS_PROBES = [
     ("type", {"type": "integer"}, [1, 1.0, "s", True]),
     ("type", {"type": "string"}, [1, "s", None]),
@@ -40,14 +69,21 @@ CLASS_PROBES = [
     ("other", {"properties": {"a": {"type": "boolean"}}, "additionalProperties": False}, [{"a": True}, {"a": 1, "b": 2}]),
     ("ids", {"properties": {"a": {"id": "http://x.invalid/dir/", "$id": "http://y.invalid/dir/",
                                   "items": {"$ref": "other.json#/t"}}}}, [{"a": [1]}, {"a": ["s"]}]),
-    ("meta", "check_schema", [{"type": "integer"}, {"type": 12}, {"minimum": "x"}, {"minLength": "3"}]),
+    ("meta", "check_schema", F1_META),
     ("ref", {"definitions": {"t": {"type": "integer"}}, "properties": {"a": {"$ref": "#/definitions/t"}}},
      [{"a": 1}, {"a": "s"}]),
     ("required", {"required": ["b"]}, [{}, {"b": 1}, {"zz": 1}]),
     ("dependencies", {"dependencies": {"a": ["b"]}}, [{"a": 1}, {"a": 1, "b": 2}, {"zz": 1}]),
 ]
+META_KEY = "9:meta"
+assert CLASS_PROBES[9][0] == "meta"
+BOTH_IDS = {"id": "http://x.invalid/scope-a", "$id": "http://y.invalid/scope-b"}
 
 META_IDS = ["file:///verif-nonexistent/meta-%d.json" % i for i in (1, 2, 3, 4)]
+
+
+def _unavailable(uri):
+    raise IOError("no such document: " + uri)
 
 
 def fn_str_is_integer(checker, instance):
@@ -93,14 +129,86 @@ def fmt_cls(instance):
     return instance == "ok-cls"
 
 
-# ---------------------------------------------------------------- probing
+def kw_nop(validator, value, instance, schema):
+    return ()
+
+
+def kw_fail(validator, value, instance, schema):
+    yield exceptions.ValidationError("keyword overridden to fail")
+
+
+# ================================================================ pristine children
+class ChildCrash(Exception):
+    """The forked child failed outside the code under test (a harness bug, never a verdict)."""
+
+
+def _package_dir():
+    return os.path.dirname(os.path.realpath(jsonschema.__file__)) + os.sep
+
+
+_frozen = False
+
+
+def in_child(fn, *args):
+    """fn(*args) in a forked child; -> ("ok", value) | ("escaped", exception type, innermost package function, text)."""
+    global _frozen
+    if not _frozen:
+        # everything alive now is shared with every child: keep the collector's bookkeeping off those pages
+        # (a full collection in a child would copy the whole heap), and let the short-lived children not collect
+        gc.collect()
+        gc.freeze()
+        _frozen = True
+    r, w = os.pipe()
+    sys.stdout.flush()
+    sys.stderr.flush()
+    pid = os.fork()
+    if pid == 0:
+        try:
+            os.close(r)
+            try:
+                gc.disable()
+                warnings.simplefilter("ignore")
+                data = ("ok", fn(*args))
+            except BaseException as e:           # the child must never return into the caller's loop
+                pkg = _package_dir()
+                tb = traceback.extract_tb(e.__traceback__)
+                inside = [fr for fr in tb if os.path.realpath(fr.filename).startswith(pkg)]
+                if inside and not isinstance(e, (KeyboardInterrupt, SystemExit, MemoryError)):
+                    data = ("escaped", type(e).__name__, inside[-1].name, str(e)[:200])
+                else:
+                    data = ("crash", traceback.format_exc()[-3000:])
+            blob = pickle.dumps(data, 2)
+            off = 0
+            while off < len(blob):
+                off += os.write(w, blob[off:off + 65536])
+        finally:
+            os._exit(0)
+    os.close(w)
+    chunks = []
+    while True:
+        b = os.read(r, 1 << 16)
+        if not b:
+            break
+        chunks.append(b)
+    os.close(r)
+    os.waitpid(pid, 0)
+    if not chunks:
+        raise ChildCrash("child for %r died without an answer" % (args,))
+    data = pickle.loads(b"".join(chunks))
+    if data[0] == "crash":
+        raise ChildCrash("child for %r crashed:\n%s" % (args, data[1]))
+    return data
+
+
+# ================================================================ probing (F1)
 def probe_typechecker(tc):
     out = {}
+    is_type = tc.is_type
     for t in TYPE_NAMES:
         col = []
         for v in TYPE_VALUES:
             try:
-                col.append(bool(tc.is_type(v, t)))
+                col.append(bool(is_type(v, t)))
             except exceptions.UndefinedTypeCheck:
                 col.append("undefined")
             except Exception as e:
@@ -123,38 +231,80 @@ def probe_formatchecker(fc):
     return out
 
 
-def probe_class(cls, instance_kwargs=None):
-    """Vector by tag.  A validator *instance* (made with types=) is probed through the same battery."""
+def _exc_name(e):
+    if isinstance(e, exceptions.UnknownType):
+        return "UnknownType"
+    if isinstance(e, exceptions.RefResolutionError):
+        return "RefResolutionError"
+    return "EXC " + type(e).__name__
+
+
+def check_schema_verdict(cls, x):
+    try:
+        cls.check_schema(x)
+        return True
+    except exceptions.SchemaError:
+        return False
+    except Exception as e:
+        return _exc_name(e)
+
+
+def tc_vector(tc, memo):
+    """The type checker's whole table as a sorted tuple; one object is probed once per pass (is_type of the
+    same object with the same arguments inside one pass: the pool's own entry for that object is the probe)."""
+    key = id(tc)
+    if memo is None or key not in memo:
+        vec = tuple(sorted(probe_typechecker(tc).items()))
+        if memo is None:
+            return vec
+        memo[key] = (tc, vec)
+    return memo[key][1]
+
+
+def probe_class(cls, instance_kwargs=None, memo=None):
+    """Vector by tag.  A validator *instance* (made with types=) is probed through the same battery.
+    One validator object per probe schema.  Schemas with neither ids nor references get a resolver that is
+    never consulted; the `ref` probe uses the resolver the class builds by default, the `ids` probe one built
+    with the class's own ID_OF over a store of two documents."""
     out = {}
+    kw = instance_kwargs or {}
+    if memo is None:
+        memo = {}
+    if "unused" not in memo:
+        memo["unused"] = RefResolver("", {})     # never consulted
+        memo["served"] = RefResolver("", {})     # takes its copy of the registered metaschemas when the pass starts
+    unused = memo["unused"]
     for i, (tag, schema, insts) in enumerate(CLASS_PROBES):
+        if schema == "check_schema":
+            out["%d:%s" % (i, tag)] = tuple(check_schema_verdict(cls, x) for x in insts)
+            continue
         col = []
+        try:
+            if tag == "ids":
+                r = RefResolver.from_schema(schema, id_of=cls.ID_OF, store=make_store())
+                v = cls(schema, resolver=r, format_checker=_format.draft7_format_checker, **kw)
+            elif tag == "ref":
+                v = cls(schema, format_checker=_format.draft7_format_checker, **kw)
+            else:
+                v = cls(schema, resolver=unused, format_checker=_format.draft7_format_checker, **kw)
+        except Exception as e:
+            out["%d:%s" % (i, tag)] = tuple("construct " + _exc_name(e) for x in insts)
+            continue
         for x in insts:
             try:
-                if schema == "check_schema":
-                    try:
-                        cls.check_schema(x)
-                        col.append(True)
-                    except exceptions.SchemaError:
-                        col.append(False)
-                else:
-                    with warnings.catch_warnings():
-                        warnings.simplefilter("ignore")
-                        r = RefResolver.from_schema(schema, id_of=cls.ID_OF, store=copy.deepcopy(STORE))
-                        v = cls(schema, resolver=r, format_checker=_format.draft7_format_checker,
-                                **(instance_kwargs or {}))
-                    col.append(tuple(sorted(e.message for e in v.iter_errors(x))))
-            except exceptions.UnknownType:
-                col.append("UnknownType")
-            except exceptions.RefResolutionError:
-                col.append("RefResolutionError")
+                col.append(tuple(sorted(e.message for e in v.iter_errors(x))))
             except Exception as e:
-                col.append("EXC " + type(e).__name__)
+                col.append(_exc_name(e))
         out["%d:%s" % (i, tag)] = tuple(col)
-    out["__tc__"] = tuple(sorted(probe_typechecker(cls.TYPE_CHECKER).items()))
+    out["__tc__"] = tc_vector(cls.TYPE_CHECKER, memo)
+    try:
+        out["__default_scope__"] = cls(dict(BOTH_IDS), **kw).resolver.resolution_scope
+    except Exception as e:
+        out["__default_scope__"] = _exc_name(e)
     mid = cls.ID_OF(cls.META_SCHEMA) if isinstance(cls.META_SCHEMA, dict) else ""
     if mid and instance_kwargs is None:
         try:
-            url, doc = RefResolver("", {}).resolve(mid)
+            url, doc = memo["served"].resolve(mid)
             out["__meta_served__"] = doc == cls.META_SCHEMA
         except exceptions.RefResolutionError:
             out["__meta_served__"] = "RefResolutionError"
@@ -175,74 +325,248 @@ def probe_old_validators(vs):
     return out
 
 
-def probe(kind, obj, extra=None):
+def probe(kind, obj, extra=None, memo=None):
     if kind == "vold":
         return probe_old_validators(obj)
     if kind == "tc":
+        if memo is not None:
+            return dict(tc_vector(obj, memo))
         return probe_typechecker(obj)
     if kind == "fc":
         return probe_formatchecker(obj)
     if kind == "fcclass":
         return {"__names__": tuple(sorted(obj.checkers))}
     if kind == "vinst":
-        return probe_class(obj, extra)
-    return probe_class(obj)
+        return probe_class(obj, extra, memo)
+    return probe_class(obj, None, memo)
 
 
 def diff_keys(a, b):
     return sorted(k for k in set(a) | set(b) if a.get(k) != b.get(k))
 
 
-# ---------------------------------------------------------------- world
+# ================================================================ the reference model of a derived class
+_meta_files = {}
+
+
+def meta_file(d):
+    """The bundled metaschema as *data* (the file), not the class attribute."""
+    if d not in _meta_files:
+        with open(os.path.join(_package_dir(), "schemas", "draft%d.json" % d)) as f:
+            _meta_files[d] = json.load(f)
+    return _meta_files[d]
+
+
+# keywords that have no function of their own in a draft: another keyword's function reads them
+MODIFIERS = {3: {"exclusiveMinimum", "exclusiveMaximum", "required"}, 4: {"exclusiveMinimum", "exclusiveMaximum"},
+             6: set(), 7: set()}
+SUB_ONE = {"additionalProperties", "additionalItems", "not", "contains", "propertyNames", "if", "then", "else"}
+SUB_MAP = {"properties", "patternProperties", "definitions"}
+SUB_LIST = {"allOf", "anyOf", "oneOf"}
+ANNOTATIONS = {"id", "$id", "$schema", "title", "description", "$comment", "definitions", "readOnly", "examples",
+               "contentMediaType", "contentEncoding"}
+
+
+def reject_all(d):
+    return {"disallow": ["any"]} if d == 3 else {"not": {}}
+
+
+def walk(S, d, f):
+    """Copy of schema S with f applied bottom-up to every subschema (schema positions only: the names under
+    properties / definitions / dependencies and the values of enum / default / const are data)."""
+    if not isinstance(S, dict):
+        return S
+    out = {}
+    for k, v in S.items():
+        if k in SUB_ONE and isinstance(v, dict):
+            v = walk(v, d, f)
+        elif k in SUB_MAP and isinstance(v, dict):
+            v = {n: walk(s, d, f) for n, s in v.items()}
+        elif k in SUB_LIST and isinstance(v, list):
+            v = [walk(s, d, f) for s in v]
+        elif k == "items":
+            v = [walk(s, d, f) for s in v] if isinstance(v, list) else walk(v, d, f)
+        elif k == "dependencies" and isinstance(v, dict):
+            v = {n: walk(s, d, f) for n, s in v.items()}
+        elif d == 3 and k in ("type", "disallow", "extends"):
+            v = [walk(s, d, f) for s in v] if isinstance(v, list) else walk(v, d, f)
+        out[k] = v
+    return f(out)
+
+
+def keywords_used(d):
+    seen = set()
+
+    def f(S):
+        seen.update(S)
+        return S
+    walk(meta_file(d), d, f)
+    return sorted((seen - ANNOTATIONS) | {"pattern", "required", "dependencies"})
+
+
+def transform(S, d, atoms):
+    """What a class whose keyword table was changed by `atoms` makes of schema S, as a schema for the
+    unchanged draft: ("nop", k) = k never reports; ("fail", k) = k reports for every instance wherever it
+    occurs.  Siblings of $ref are ignored by drafts 3-7, so a neutralised $ref leaves an empty schema."""
+    def f(N):
+        for mode, k in atoms:
+            if mode not in ("nop", "fail") or k not in N:
+                continue
+            if k == "$ref":
+                return {} if mode == "nop" else reject_all(d)
+            if "$ref" in N:
+                continue                      # never evaluated
+            if k not in MODIFIERS[d]:
+                N = {kk: vv for kk, vv in N.items() if kk != k}
+            if mode == "fail":
+                N = dict(N)
+                N.update(reject_all(d))
+        return N
+    return walk(S, d, f) if any(m in ("nop", "fail") for m, k in atoms) else S
+
+
+TC_VARIANTS = {"string": (fn_anything, lambda x: True),
+               "integer": (fn_str_is_integer, lambda x: isinstance(x, str))}
+
+
+def model_valid(d, atoms, S, x, transformed=None):
+    """Verdict of the reference evaluator for instance x under schema S as read by a class = draft d + atoms."""
+    redef = {k: TC_VARIANTS[k][1] for m, k in atoms if m == "tc"}
+    T = transform(S, d, atoms) if transformed is None else transformed
+    if not redef:
+        return not spec.errs(d, T, x)
+    orig = spec.is_type
+
+    def patched(draft, v, name):
+        if name in redef:
+            return redef[name](v)
+        return orig(draft, v, name)
+    spec.is_type = patched
+    try:
+        return not spec.errs(d, T, x)
+    finally:
+        spec.is_type = orig
+
+
+_model_memo = {}
+
+
+def model_meta(d, atoms, probes_key, probes):
+    """Model check_schema verdicts of (draft d + atoms) for a list of candidate schemas."""
+    key = (d, atoms, probes_key)
+    if key not in _model_memo:
+        M = meta_file(d)
+        T = transform(M, d, atoms)
+        _model_memo[key] = tuple(model_valid(d, atoms, M, x, T) for x in probes)
+    return _model_memo[key]
+
+
+def model_val(d, atoms):
+    key = (d, atoms, "val")
+    if key not in _model_memo:
+        _model_memo[key] = tuple(model_valid(d, atoms, S, x) for S, x in val2(d))
+    return _model_memo[key]
+
+
+def derive(parent_expected, parent_model, child_model):
+    """Entries where the model gives parent and child the same answer must stay the parent's (recorded) ones;
+    the others take the model's answer for the child."""
+    return tuple(pe if pm == cm else cm for pe, pm, cm in zip(parent_expected, parent_model, child_model))
+
+
+# ================================================================ world (F1)
 class Globals(object):
+    def state(self):
+        return (dict(FormatChecker.checkers), dict(jsv.validators), dict(jsv.meta_schemas.store),
+                {k: dict(v.checkers) for k, v in _format._draft_checkers.items()})
+
     def snapshot(self):
-        self.fc = dict(FormatChecker.checkers)
-        self.validators = dict(jsv.validators)
-        self.meta = dict(jsv.meta_schemas.store)
-        self.draft = {k: dict(v.checkers) for k, v in _format._draft_checkers.items()}
+        self.snap = self.state()
+
+    def unchanged(self):
+        return self.state() == self.snap
 
     def restore(self):
+        fc, vals, meta, draft = self.snap
         FormatChecker.checkers.clear()
-        FormatChecker.checkers.update(self.fc)
+        FormatChecker.checkers.update(fc)
         jsv.validators.clear()
-        jsv.validators.update(self.validators)
+        jsv.validators.update(vals)
         jsv.meta_schemas.store.clear()
-        jsv.meta_schemas.store.update(self.meta)
+        jsv.meta_schemas.store.update(meta)
         for k, v in _format._draft_checkers.items():
             v.checkers.clear()
-            v.checkers.update(self.draft[k])
+            v.checkers.update(draft[k])
 
 
 G = Globals()
 _baseline = {}
+_fc_default = {}
+
+
+def initial_objects():
+    out = [("Draft%d" % d, "class", CLS[d]) for d in DRAFTS]
+    out += [(n + "_type_checker", "tc", getattr(_types, n + "_type_checker")) for n in ("draft3", "draft4", "draft6")]
+    out += [(n + "_format_checker", "fc", fc) for n, fc in sorted(_format._draft_checkers.items())]
+    out.append(("FormatChecker", "fcclass", FormatChecker))
+    return out
+
+
+def _baseline_one(i):
+    name, kind, obj = initial_objects()[i]
+    return probe(kind, obj)
+
+
+def _baseline_fc():
+    return probe_formatchecker(FormatChecker())
+
+
+def _baseline_f2(d):
+    return probe2(CLS[d], d)
+
+
+def ensure_baseline():
+    """Every initial object is probed alone, in its own pristine child: `the probes recorded when the object
+    was created`, with nothing else used before."""
+    if _baseline:
+        return
+    for i, (name, kind, obj) in enumerate(initial_objects()):
+        _baseline[(name, kind)] = _child_value(in_child(_baseline_one, i), "baseline of " + name)
+    _fc_default.update(_child_value(in_child(_baseline_fc), "baseline of FormatChecker()"))
+    for d in DRAFTS:
+        _baseline[("F2", d)] = _child_value(in_child(_baseline_f2, d), "F2 baseline of draft %d" % d)
+        for atoms in F1_ATOM_SEQS:
+            model_meta(d, atoms, "f1", F1_META)
+
+
+class Escaped(Exception):
+    pass
+
+
+def _child_value(res, what):
+    if res[0] != "ok":
+        raise Escaped("%s: %s escaped from %s: %s" % (what, res[1], res[2], res[3]))
+    return res[1]
 
 
 class World(object):
     def __init__(self):
-        G.restore()
-        self.objs = []      # (name, kind, object, expected vector, extra)
-        for d, cls in _e1.CLS.items():
-            self.add("Draft%d" % d, "class", cls)
-        for n in ("draft3", "draft4", "draft6"):
-            self.add(n + "_type_checker", "tc", getattr(_types, n + "_type_checker"))
-        for n, fc in sorted(_format._draft_checkers.items()):
-            self.add(n + "_format_checker", "fc", fc)
-        self.add("FormatChecker", "fcclass", FormatChecker)
+        self.objs = []      # [name, kind, object, expected vector, extra, model]
+        for name, kind, obj in initial_objects():
+            model = (int(name[5:]), ()) if kind == "class" else None
+            self.objs.append([name, kind, obj, _baseline[(name, kind)], None, model])
         # validator objects built now, referring to metaschema ids that only later operations register:
         # they took their snapshot of the known metaschemas at construction and must keep failing to resolve these
-        olds = [(mid, _e1.CLS[7]({"$ref": mid})) for mid in META_IDS]
+        # (their resolvers get a handler for the scheme of those ids, so that a failing retrieval costs nothing)
+        olds = [(mid, CLS[7]({"$ref": mid}, resolver=RefResolver("", {"$ref": mid}, handlers={"file": _unavailable})))
+                for mid in META_IDS]
         self.objs.append(["validators-built-before", "vold", olds,
-                          {mid: "RefResolutionError" for mid in META_IDS}, None])
+                          {mid: "RefResolutionError" for mid in META_IDS}, None, None])
         self.cls_formats = []      # names registered class-wide so far
         self.counter = 0
 
-    def add(self, name, kind, obj, expected=None, extra=None):
-        if expected is None:
-            key = (name, kind)
-            if key not in _baseline:
-                _baseline[key] = probe(kind, obj, extra)
-            expected = _baseline[key]
-        self.objs.append([name, kind, obj, expected, extra])
+    def add(self, name, kind, obj, expected, extra=None, model=None):
+        self.objs.append([name, kind, obj, expected, extra, model])
 
     def get(self, name):
         for o in self.objs:
@@ -277,7 +601,43 @@ OPS = ([("tc.redefine", b) for b in ("draft4_type_checker", "LAST")] +
         ("extend+override+version", "Draft7"), ("extend+tc+version", "Draft4"), ("create+default_types", "Draft3")] +
        [("create", "Draft4"), ("create+version", "Draft7"), ("types-arg", "Draft4"), ("types-arg", "LAST")] +
        [("fc.checks", "draft7_format_checker"), ("fc.checks", "LAST"), ("fc.rechecks", "LAST"), ("cls_checks",),
-        ("fc.new",), ("fc.new-subset",)])
+        ("fc.new",), ("fc.new-subset",), ("use-new",)])
+
+# what each keyword-changing operation of F1 means to the model (none of the F1 check_schema candidates
+# contains "zz", so the custom minimum / required functions never report there)
+F1_ATOMS = {"extend+override": ("nop", "minimum"), "extend+override-ref": ("fail", "$ref"),
+            "extend+override-required": ("nop", "required"), "extend+override+version": ("nop", "type")}
+
+
+def created_kind(op):
+    """Kind of object the operation derives when it succeeds (static)."""
+    k = op[0]
+    if k.startswith("tc."):
+        return "tc"
+    if k.startswith("extend") or k.startswith("create"):
+        return "class"
+    if k == "types-arg":
+        return "vinst"
+    if k in ("fc.new", "fc.new-subset"):
+        return "fc"
+    return None
+
+
+# (operation on LAST) -> (kind it looks for, the explicit operation it equals while no such object exists)
+LAST_IS = {("tc.redefine", "LAST"): ("tc", ("tc.redefine", "draft4_type_checker")),
+           ("extend", "LAST"): ("class", ("extend", "Draft7")),
+           ("extend+override", "LAST"): ("class", ("extend+override", "Draft7"))}
+assert all(v[1] in OPS and k in OPS for k, v in LAST_IS.items())
+
+
+def _seqs(alphabet, n):
+    out = [()]
+    for i in range(n):
+        out += [s + (a,) for s in out if len(s) == i for a in alphabet]
+    return out
+
+
+F1_ATOM_SEQS = _seqs(sorted(set(F1_ATOMS.values())), 3)
 
 
 def resolve_target(w, kind, name, default):
@@ -286,191 +646,213 @@ def resolve_target(w, kind, name, default):
     return w.get(name)
 
 
+def no_type_messages(vec):
+    """The parent's vector as a class whose `type` keyword accepts everything must give it: the type
+    messages disappear from every validation probe, everything else stays."""
+    out = {}
+    for k, col in vec.items():
+        if k[0].isdigit() and k != META_KEY:
+            col = tuple(tuple(m for m in c if "is not of type" not in m) if isinstance(c, tuple) else c for c in col)
+        out[k] = col
+    return out
+
+
 def apply_op(w, op):
     """Performs the derivation; records the model's expectation for the new object. Returns an observation."""
     k = op[0]
-    with warnings.catch_warnings():
-        warnings.simplefilter("ignore")
-        if k.startswith("tc."):
-            parent = resolve_target(w, "tc", op[1], "draft4_type_checker")
-            tc, pv = parent[2], parent[3]
-            if k == "tc.redefine":
-                new = tc.redefine("integer", fn_str_is_integer)
-                exp = with_changes(pv, {"integer": tuple(isinstance(v, str) for v in TYPE_VALUES)})
-            elif k == "tc.redefine_many":
-                new = tc.redefine_many({"string": fn_anything, "foo": fn_anything})
-                exp = with_changes(pv, {"string": tuple(True for v in TYPE_VALUES),
-                                        "foo": tuple(True for v in TYPE_VALUES)})
-            else:
-                if pv.get("null", ("undefined",))[0] == "undefined":
-                    try:
-                        tc.remove("null")
-                        return ("remove-did-not-raise",)
-                    except exceptions.UndefinedTypeCheck:
-                        return ("UndefinedTypeCheck",)
-                new = tc.remove("null")
-                exp = with_changes(pv, {"null": tuple("undefined" for v in TYPE_VALUES)})
-            w.add(w.fresh("tc"), "tc", new, exp)
-            return ("created", w.objs[-1][0])
-        if k.startswith("extend") or k.startswith("create"):
-            parent = resolve_target(w, "class", op[1], "Draft7")
-            cls, pv = parent[2], parent[3]
-            changes = {}
-            if k == "extend":
-                new = jsv.extend(cls)
-            elif k == "extend+override":
-                new = jsv.extend(cls, validators={"minimum": kw_minimum_custom})
-                changes = {"3:minimum": ((), (), (), ("custom minimum rejects zz",))}
-            elif k == "extend+add":
-                new = jsv.extend(cls, validators={"zzz": kw_zzz})
-                changes = {"4:zzz": (("zzz rejects 1",), ())}
-            elif k == "extend+override-ref":
-                new = jsv.extend(cls, validators={"$ref": kw_ref_custom})
-                # check_schema evaluates the metaschema with the class itself, and every metaschema uses $ref
-                changes = {"8:ids": (("custom ref",), ("custom ref",)), "10:ref": (("custom ref",), ("custom ref",)),
-                           "9:meta": probe("class", new)["9:meta"]}      # draft-dependent: recorded at creation
-            elif k == "extend+override-required":
-                new = jsv.extend(cls, validators={"required": kw_required_custom})
-                # only the probes of the keyword itself change (dependencies keeps its own meaning)
-                changes = {"11:required": ((), (), ("custom required rejects zz",))}
-                vec = probe("class", new)
-                if vec.get("9:meta") != pv.get("9:meta"):
-                    changes["9:meta"] = vec["9:meta"]       # the draft 4+ metaschemas use `required` themselves? (they do not)
-            elif k == "extend+override+version":
-                # registered under the parent's own metaschema id, with a `type` keyword that accepts everything
-                # (so its check_schema accepts what the parent's rejects): the parent itself must not notice
-                new = jsv.extend(cls, validators={"type": kw_type_permissive},
-                                 version="verif-ext%d" % (w.counter + 1))
-                w.add(w.fresh("class"), "class", new, None)
-                w.objs[-1][3] = probe("class", new)       # recorded at creation, must stay fixed
-                return ("created", w.objs[-1][0])
-            elif k == "extend+tc+version":
-                tcp = w.last("tc", "draft3_type_checker")
+    if k == "use-new":
+        memo = {}
+        for name, kind, obj, exp, extra, model in reversed(w.objs):
+            if not name.startswith("new"):
+                continue
+            got = probe(kind, obj, extra, memo)
+            if got != exp:
+                keys = diff_keys(got, exp)
+                return ("use-mismatch", name, kind, keys[:6], {kk: got.get(kk) for kk in keys[:3]},
+                        {kk: exp.get(kk) for kk in keys[:3]})
+        return ("used", sum(1 for o in w.objs if o[0].startswith("new")))
+    if k.startswith("tc."):
+        parent = resolve_target(w, "tc", op[1], "draft4_type_checker")
+        tc, pv = parent[2], parent[3]
+        if k == "tc.redefine":
+            new = tc.redefine("integer", fn_str_is_integer)
+            exp = with_changes(pv, {"integer": tuple(isinstance(v, str) for v in TYPE_VALUES)})
+        elif k == "tc.redefine_many":
+            new = tc.redefine_many({"string": fn_anything, "foo": fn_anything})
+            exp = with_changes(pv, {"string": tuple(True for v in TYPE_VALUES),
+                                    "foo": tuple(True for v in TYPE_VALUES)})
+        else:
+            if pv.get("null", ("undefined",))[0] == "undefined":
                 try:
-                    new = jsv.extend(cls, type_checker=tcp[2], version="verif-tc%d" % (w.counter + 1))
-                except TypeError:
-                    return ("TypeError",)
-                w.add(w.fresh("class"), "class", new, None)
-                w.objs[-1][3] = probe("class", new)       # recorded at creation, must stay fixed
-                return ("created", w.objs[-1][0])
-            elif k == "create+default_types":
-                new = jsv.create(meta_schema=cls.META_SCHEMA, validators=cls.VALIDATORS, id_of=cls.ID_OF,
-                                 default_types={"array": (list, tuple), "object": dict, "string": str,
-                                                "number": (int, float), "integer": int, "null": type(None),
-                                                "boolean": bool, "foo": (bytes,)})
-                w.add(w.fresh("class"), "class", new, None)
-                w.objs[-1][3] = probe("class", new)       # a new type table: recorded once; children must inherit it
-                return ("created", w.objs[-1][0])
-            elif k == "extend+tc":
-                tcp = w.last("tc", "draft3_type_checker")
-                try:
-                    new = jsv.extend(cls, type_checker=tcp[2])
-                except TypeError:
-                    return ("TypeError",)
-                w.add(w.fresh("class"), "class", new, None)
-                # the expectation for a class with a foreign type checker: everything not involving types is the
-                # parent's; the type-involving part is recorded at creation and must stay fixed afterwards
-                vec = probe("class", new)
-                if vec["__tc__"] != tuple(sorted(tcp[3].items())):
-                    w.objs[-1][3] = {"__tc__": "type checker of the extended class differs from the one passed"}
-                else:
-                    keep = {kk: vv for kk, vv in pv.items() if kk.split(":")[-1] in ("zzz", "format")}
-                    w.objs[-1][3] = with_changes(vec, keep)
-                return ("created", w.objs[-1][0])
-            elif k == "create":
-                new = jsv.create(meta_schema=cls.META_SCHEMA, validators=cls.VALIDATORS,
-                                 type_checker=cls.TYPE_CHECKER, id_of=cls.ID_OF)
-            else:
-                meta = dict(cls.META_SCHEMA)
-                meta["$id"] = meta["id"] = META_IDS[min(w.counter, len(META_IDS) - 1)]
-                new = jsv.create(meta_schema=meta, validators=cls.VALIDATORS, type_checker=cls.TYPE_CHECKER,
-                                 id_of=cls.ID_OF, version="verif%d" % (w.counter + 1))
-            w.add(w.fresh("class"), "class", new, with_changes(pv, changes))
+                    tc.remove("null")
+                    return ("remove-did-not-raise",)
+                except exceptions.UndefinedTypeCheck:
+                    return ("UndefinedTypeCheck",)
+            new = tc.remove("null")
+            exp = with_changes(pv, {"null": tuple("undefined" for v in TYPE_VALUES)})
+        w.add(w.fresh("tc"), "tc", new, exp)
+        return ("created", w.objs[-1][0])
+    if k.startswith("extend") or k.startswith("create"):
+        parent = resolve_target(w, "class", op[1], "Draft7")
+        cls, pv, pmodel = parent[2], parent[3], parent[5]
+        changes = {}
+        model = pmodel
+        if k in F1_ATOMS and pmodel is not None:
+            model = (pmodel[0], pmodel[1] + (F1_ATOMS[k],))
+        elif k in F1_ATOMS:
+            model = None
+        if k == "extend":
+            new = jsv.extend(cls)
+        elif k == "extend+override":
+            new = jsv.extend(cls, validators={"minimum": kw_minimum_custom})
+            changes = {"3:minimum": ((), (), (), ("custom minimum rejects zz",))}
+        elif k == "extend+add":
+            new = jsv.extend(cls, validators={"zzz": kw_zzz})
+            changes = {"4:zzz": (("zzz rejects 1",), ())}
+        elif k == "extend+override-ref":
+            new = jsv.extend(cls, validators={"$ref": kw_ref_custom})
+            changes = {"8:ids": (("custom ref",), ("custom ref",)), "10:ref": (("custom ref",), ("custom ref",))}
+        elif k == "extend+override-required":
+            new = jsv.extend(cls, validators={"required": kw_required_custom})
+            # only the probes of the keyword itself change (dependencies keeps its own meaning)
+            changes = {"11:required": ((), (), ("custom required rejects zz",))}
+        elif k == "extend+override+version":
+            # registered under the parent's own metaschema id, with a `type` keyword that accepts everything
+            # (so its check_schema accepts what the parent's rejects): the parent itself must not notice
+            new = jsv.extend(cls, validators={"type": kw_type_permissive},
+                             version="verif-ext%d" % (w.counter + 1))
+            pv = no_type_messages(pv)
+        elif k == "extend+tc+version":
+            tcp = w.last("tc", "draft3_type_checker")
+            try:
+                new = jsv.extend(cls, type_checker=tcp[2], version="verif-tc%d" % (w.counter + 1))
+            except TypeError:
+                return ("TypeError",)
+            w.add(w.fresh("class"), "class", new, probe("class", new))       # recorded at creation, must stay fixed
             return ("created", w.objs[-1][0])
-        if k == "types-arg":
-            parent = resolve_target(w, "class", op[1], "Draft4")
-            cls, pv = parent[2], parent[3]
-            extra = {"types": {"integer": (int, str)}}
-            vec = probe("vinst", cls, extra)
-            # the instance itself treats strings as integers; recorded once, must stay; the class must not change
-            w.add(w.fresh("vinst-of-" + parent[0]), "vinst", cls, vec, extra)
-            got = vec.get("0:type")
-            return ("types-arg", got[2] if got else None)
-        if k == "fc.checks":
-            parent = resolve_target(w, "fc", op[1], "draft7_format_checker") if op[1] != "LAST" else w.last("fc", "draft4_format_checker")
-            fc, pv = parent[2], parent[3]
-            name = "fmt-a" if "fmt-a" not in fc.checkers else "fmt-b"
-            fc.checks(name)(fmt_a)
-            exp = with_changes(pv, {name: tuple((v == "ok-a") for v in FMT_VALUES),
-                                    "__names__": tuple(sorted(set(pv["__names__"]) | {name}))})
-            parent[3] = exp       # this very object changes, by design; nobody else may
-            return ("registered", parent[0], name)
-        if k == "fc.rechecks":
-            parent = w.last("fc", "draft4_format_checker")
-            fc, pv = parent[2], parent[3]
-            for v in FMT_VALUES:                       # use it first (anything memoised gets memoised now)
-                fc.conforms(v, "fmt-a")
-            fc.checks("fmt-a")(fmt_a2)                 # then replace the function behind the same name
-            exp = with_changes(pv, {"fmt-a": tuple((v == "x") for v in FMT_VALUES),
-                                    "__names__": tuple(sorted(set(pv["__names__"]) | {"fmt-a"}))})
-            parent[3] = exp
-            return ("re-registered", parent[0])
-        if k == "cls_checks":
-            FormatChecker.cls_checks("fmt-cls")(fmt_cls)
-            if "fmt-cls" not in w.cls_formats:
-                w.cls_formats.append("fmt-cls")
-            o = w.get("FormatChecker")
-            o[3] = {"__names__": tuple(sorted(set(o[3]["__names__"]) | {"fmt-cls"}))}
-            return ("cls-registered",)
-        if k in ("fc.new", "fc.new-subset"):
-            base_names = set(w.get("FormatChecker")[3]["__names__"])
-            if k == "fc.new":
-                new = FormatChecker()
-                names = base_names
-            else:
-                new = FormatChecker(formats=["ipv4", "date"])
-                names = {"ipv4", "date"}
-            exp = {}
-            ref = _baseline_fc_default()
-            for n in FMT_NAMES:
-                if n in names and n == "fmt-cls":
-                    exp[n] = tuple((v == "ok-cls") for v in FMT_VALUES)
-                elif n in names:
-                    exp[n] = ref[n]
-                else:
-                    exp[n] = tuple(True for v in FMT_VALUES)
-            exp["__names__"] = tuple(sorted(names))
-            w.add(w.fresh("fc"), "fc", new, exp)
+        elif k == "create+default_types":
+            new = jsv.create(meta_schema=cls.META_SCHEMA, validators=cls.VALIDATORS, id_of=cls.ID_OF,
+                             default_types={"array": (list, tuple), "object": dict, "string": str,
+                                            "number": (int, float), "integer": int, "null": type(None),
+                                            "boolean": bool, "foo": (bytes,)})
+            # a new type table: recorded once; children must inherit it
+            w.add(w.fresh("class"), "class", new, probe("class", new))
             return ("created", w.objs[-1][0])
+        elif k == "extend+tc":
+            tcp = w.last("tc", "draft3_type_checker")
+            try:
+                new = jsv.extend(cls, type_checker=tcp[2])
+            except TypeError:
+                return ("TypeError",)
+            # the expectation for a class with a foreign type checker: everything not involving types is the
+            # parent's; the type-involving part is recorded at creation and must stay fixed afterwards
+            vec = probe("class", new)
+            if vec["__tc__"] != tuple(sorted(tcp[3].items())):
+                exp = {"__tc__": "type checker of the extended class differs from the one passed"}
+            else:
+                keep = {kk: vv for kk, vv in pv.items() if kk.split(":")[-1] in ("zzz", "format")}
+                exp = with_changes(vec, keep)
+            w.add(w.fresh("class"), "class", new, exp)
+            return ("created", w.objs[-1][0])
+        elif k == "create":
+            new = jsv.create(meta_schema=cls.META_SCHEMA, validators=cls.VALIDATORS,
+                             type_checker=cls.TYPE_CHECKER, id_of=cls.ID_OF)
+        else:
+            meta = dict(cls.META_SCHEMA)
+            meta["$id"] = meta["id"] = META_IDS[min(w.counter, len(META_IDS) - 1)]
+            new = jsv.create(meta_schema=meta, validators=cls.VALIDATORS, type_checker=cls.TYPE_CHECKER,
+                             id_of=cls.ID_OF, version="verif%d" % (w.counter + 1))
+        exp = with_changes(pv, changes)
+        if model is not None and pmodel is not None:
+            # check_schema evaluates the metaschema with the class itself: the overridden keyword (and nothing
+            # else) changes there too
+            exp[META_KEY] = derive(pv[META_KEY], model_meta(pmodel[0], pmodel[1], "f1", F1_META),
+                                   model_meta(model[0], model[1], "f1", F1_META))
+        elif model is None and k in F1_ATOMS:
+            exp[META_KEY] = probe("class", new)[META_KEY]     # parent without a model: recorded at creation
+        w.add(w.fresh("class"), "class", new, exp, None, model)
+        return ("created", w.objs[-1][0])
+    if k == "types-arg":
+        parent = resolve_target(w, "class", op[1], "Draft4")
+        cls, pv = parent[2], parent[3]
+        extra = {"types": {"integer": (int, str)}}
+        vec = probe("vinst", cls, extra)
+        # the instance itself treats strings as integers; recorded once, must stay; the class must not change
+        w.add(w.fresh("vinst-of-" + parent[0]), "vinst", cls, vec, extra)
+        got = vec.get("0:type")
+        return ("types-arg", got[2] if got else None)
+    if k == "fc.checks":
+        parent = resolve_target(w, "fc", op[1], "draft7_format_checker") if op[1] != "LAST" else w.last("fc", "draft4_format_checker")
+        fc, pv = parent[2], parent[3]
+        name = "fmt-a" if "fmt-a" not in fc.checkers else "fmt-b"
+        fc.checks(name)(fmt_a)
+        exp = with_changes(pv, {name: tuple((v == "ok-a") for v in FMT_VALUES),
+                                "__names__": tuple(sorted(set(pv["__names__"]) | {name}))})
+        parent[3] = exp       # this very object changes, by design; nobody else may
+        return ("registered", parent[0], name)
+    if k == "fc.rechecks":
+        parent = w.last("fc", "draft4_format_checker")
+        fc, pv = parent[2], parent[3]
+        for v in FMT_VALUES:                       # use it first (anything memoised gets memoised now)
+            fc.conforms(v, "fmt-a")
+        fc.checks("fmt-a")(fmt_a2)                 # then replace the function behind the same name
+        exp = with_changes(pv, {"fmt-a": tuple((v == "x") for v in FMT_VALUES),
+                                "__names__": tuple(sorted(set(pv["__names__"]) | {"fmt-a"}))})
+        parent[3] = exp
+        return ("re-registered", parent[0])
+    if k == "cls_checks":
+        FormatChecker.cls_checks("fmt-cls")(fmt_cls)
+        if "fmt-cls" not in w.cls_formats:
+            w.cls_formats.append("fmt-cls")
+        o = w.get("FormatChecker")
+        o[3] = {"__names__": tuple(sorted(set(o[3]["__names__"]) | {"fmt-cls"}))}
+        return ("cls-registered",)
+    if k in ("fc.new", "fc.new-subset"):
+        base_names = set(w.get("FormatChecker")[3]["__names__"])
+        if k == "fc.new":
+            new = FormatChecker()
+            names = base_names
+        else:
+            new = FormatChecker(formats=["ipv4", "date"])
+            names = {"ipv4", "date"}
+        exp = {}
+        ref = _fc_default
+        for n in FMT_NAMES:
+            if n in names and n == "fmt-cls":
+                exp[n] = tuple((v == "ok-cls") for v in FMT_VALUES)
+            elif n in names:
+                exp[n] = ref[n]
+            else:
+                exp[n] = tuple(True for v in FMT_VALUES)
+        exp["__names__"] = tuple(sorted(names))
+        w.add(w.fresh("fc"), "fc", new, exp)
+        return ("created", w.objs[-1][0])
     raise ValueError(op)
 
 
-_fc_default = {}
-
-
-def _baseline_fc_default():
-    """Per-name conformance columns of the built-in format functions (probed once on a pristine registry)."""
-    if not _fc_default:
-        saved = dict(FormatChecker.checkers)
-        FormatChecker.checkers.clear()
-        FormatChecker.checkers.update(G.fc)
-        _fc_default.update(probe_formatchecker(FormatChecker()))
-        FormatChecker.checkers.clear()
-        FormatChecker.checkers.update(saved)
-    return _fc_default
+def _digest(x):
+    return zlib.crc32(repr(x).encode("utf-8", "backslashreplace"))
 
 
 class Model(object):
-    all_ops = OPS
+    family = "F1"
 
     def new_world(self):
         return World()
 
-    def ops(self, w):
-        return list(OPS)
-
-    def deviation(self, op):
-        return 0
+    def ops(self, hist):
+        """Operations enabled after `hist`: one that targets `the last derived X` while no operation that could
+        have derived an X has happened would be, exactly, the operation that names the default object (those
+        pairs are listed in LAST_IS); use-new with nothing derived probes nothing."""
+        kinds = set(created_kind(h) for h in hist)
+        out = []
+        for op in OPS:
+            if op[0] == "use-new" and not (kinds - {None}):
+                continue
+            if op in LAST_IS and LAST_IS[op][0] not in kinds:
+                continue
+            out.append(op)
+        return out
 
     def apply(self, w, op):
         try:
@@ -482,18 +864,22 @@ class Model(object):
         return "%s:%s" % (op[0], obs[0])
 
     def canon(self, w):
-        return tuple((o[1], hash(repr(sorted(o[3].items())))) for o in w.objs)
+        return _digest(tuple((o[1], _digest(sorted(o[3].items()))) for o in w.objs))
 
-    def check(self, w, hist, op, obs):
+    def check(self, w, op, obs):
         if obs[0] == "EXC":
             return ("operation-raised|%s|%s" % (op[0], obs[1]), {"observed": obs})
-        for name, kind, obj, exp, extra in w.objs:
-            got = probe(kind, obj, extra)
+        if obs[0] == "use-mismatch":
+            return ("derived-object-differs-when-first-used|%s:%s" % (obs[2], ",".join(k.split(":")[-1] for k in obs[3][:3])),
+                    {"object": obs[1], "differs_in": obs[3], "observed": obs[4], "expected": obs[5]})
+        memo = {}
+        for name, kind, obj, exp, extra, model in w.objs:
+            got = probe(kind, obj, extra, memo)
             if got != exp:
                 keys = diff_keys(got, exp)
                 who = "initial-object" if not name.startswith("new") else "derived-object"
-                return ("%s-changed|after-%s|%s:%s" % (who, op[0], kind, ",".join(k.split(":")[-1] for k in keys[:3])),
-                        {"object": name, "differs_in": keys[:6],
+                return ("%s-changed|%s:%s" % (who, kind, ",".join(k.split(":")[-1] for k in keys[:3])),
+                        {"object": name, "after": list(op), "differs_in": keys[:6],
                          "observed": {k: got.get(k) for k in keys[:3]}, "expected": {k: exp.get(k) for k in keys[:3]}})
         return None
 
@@ -501,69 +887,418 @@ class Model(object):
 MODEL = Model()
 
 
+# ================================================================ F2: first-use orders around one keyword
+def rich_schema(d):
+    """A schema the draft's metaschema accepts and that makes the metaschema evaluate (nearly) every keyword it
+    uses on conforming data: an always-failing override of any of them turns check_schema to `rejected`."""
+    S = {"type": ["string", "integer"], "properties": {"a": {"minLength": 3}}, "items": [{}],
+         "additionalProperties": False, "minimum": 1, "pattern": "^a", "enum": [1], "uniqueItems": True,
+         "format": "ipv4", "default": 1}
+    if d == 3:
+        S.update({"divisibleBy": 2, "exclusiveMinimum": True, "dependencies": {"a": "b"}})
+    else:
+        S.update({"multipleOf": 2, "required": ["a"], "dependencies": {"a": ["b"]}, "allOf": [{}], "anyOf": [{}]})
+        S["exclusiveMinimum"] = True if d == 4 else 1
+    if d >= 6:
+        S.update({"patternProperties": {"^a": {}}, "propertyNames": {}})
+    return S
+
+
+def meta2(d):
+    mult = "divisibleBy" if d == 3 else "multipleOf"
+    L = [{"type": "integer"}, rich_schema(d), {"type": 12}, {"type": "foo"}, {"type": ["string", "string"]},
+         {"properties": {"a": 1}}, {"items": [1]}, {"additionalProperties": 1},
+         {"minLength": -1}, {mult: 0}, {"exclusiveMinimum": True},
+         {"required": []}, {"required": ["a", "a"]}, {"dependencies": {"a": 1}}, {"pattern": "("}, {"pattern": 5},
+         {"minLength": "3"}]
+    if d >= 4:
+        L += [{"allOf": []}]
+    if d >= 6:
+        L += [{"patternProperties": {"(": {}}}]
+    return L
+
+
+_val2 = {}
+
+
+def val2(d):
+    """(schema, instance) pairs: per keyword one instance its schema rejects and one it accepts."""
+    if d in _val2:
+        return _val2[d]
+    L = [({"type": "integer"}, "s", 1), ({"minimum": 5}, 1, 7),
+         (({"minimum": 5, "exclusiveMinimum": True}, 5, 6) if d <= 4 else ({"exclusiveMinimum": 5}, 5, 6)),
+         ({"items": {"type": "integer"}}, ["s"], [1]), ({"properties": {"a": {"type": "integer"}}}, {"a": "s"}, {"a": 1}),
+         ({"additionalProperties": False}, {"a": 1}, {}), ({"uniqueItems": True}, [1, 1], [1, 2]), ({"enum": [1]}, 2, 1),
+         # (draft 3 in its string form: the draft-3 function asks the type checker which form it has got, so a
+         # redefined `string` legitimately changes how the array form is read)
+         ({"dependencies": {"a": "b" if d == 3 else ["b"]}}, {"a": 1}, {"a": 1, "b": 2}),
+         ({"definitions": {"t": {"type": "integer"}}, "$ref": "#/definitions/t"}, "s", 1),
+         ({"pattern": "^a"}, "b", "a"), ({"format": "ipv4"}, "x", "127.0.0.1"), ({"minItems": 2}, [1], [1, 2]),
+         ({"default": 1}, 2, 1),
+         (({"properties": {"a": {"required": True}}}, {}, {"a": 1}) if d == 3 else ({"required": ["a"]}, {}, {"a": 1}))]
+    if d >= 4:
+        L += [({"anyOf": [{"type": "integer"}]}, "s", 1), ({"allOf": [{"type": "integer"}]}, "s", 1)]
+    if d >= 6:
+        L += [({"propertyNames": {"pattern": "^a"}}, {"b": 1}, {"a": 1})]
+    _val2[d] = [(S, x) for S, bad, good in L for x in (bad, good)]
+    return _val2[d]
+
+
+def probe2(cls, d):
+    out = {"meta": tuple(check_schema_verdict(cls, x) for x in meta2(d))}
+    col = []
+    unused = RefResolver("", {})
+    last = v = None
+    for S, x in val2(d):
+        try:
+            if S is not last:            # one validator object per probe schema
+                v = cls(S) if "$ref" in S else cls(S, resolver=unused)
+                last = S
+            col.append(bool(v.is_valid(x)))
+        except Exception as e:
+            col.append(_exc_name(e))
+    out["val"] = tuple(col)
+    out["__tc__"] = tc_vector(cls.TYPE_CHECKER, None)
+    try:
+        out["__default_scope__"] = cls(dict(BOTH_IDS)).resolver.resolution_scope
+    except Exception as e:
+        out["__default_scope__"] = _exc_name(e)
+    try:
+        url, doc = RefResolver("", {}).resolve(cls.ID_OF(cls.META_SCHEMA))
+        out["__meta_served__"] = doc == cls.META_SCHEMA
+    except Exception as e:
+        out["__meta_served__"] = _exc_name(e)
+    return out
+
+
+def f2_units():
+    units = []
+    for d in DRAFTS:
+        for k in keywords_used(d):
+            units.append(("F2", d, k, "nop"))
+            units.append(("F2", d, k, "fail"))
+        for t in sorted(TC_VARIANTS):
+            units.append(("F2", d, t, "tc"))
+    return units
+
+
+def f2_ops(mode):
+    ops = [("ov", "BASE"), ("ov", "LAST"), ("ov+version", "BASE"), ("plain", "BASE"), ("plain", "LAST")]
+    if mode == "nop":
+        ops.append(("without", "BASE"))
+    return ops + [("use", "LAST"), ("use", "BASE")]
+
+
+class World2(object):
+    def __init__(self, d, k, mode):
+        self.d, self.k, self.mode = d, k, mode
+        self.objs = [["Draft%d" % d, CLS[d], _baseline[("F2", d)], ()]]     # name, class, expected, atoms
+        self.counter = 0
+
+
+class Model2(object):
+    family = "F2"
+
+    def __init__(self, d, k, mode):
+        self.d, self.k, self.mode = d, k, mode
+
+    def new_world(self):
+        return World2(self.d, self.k, self.mode)
+
+    def ops(self, hist):
+        derived = any(h[0] not in ("use",) for h in hist)
+        return [op for op in f2_ops(self.mode) if derived or op[1] != "LAST"]
+
+    def outcome_class(self, op, obs):
+        return "F2:%s:%s:%s" % (self.mode, op[0], obs[0])
+
+    def canon(self, w):
+        return _digest(tuple(_digest(sorted(o[2].items())) for o in w.objs))
+
+    def expected(self, parent, atoms):
+        d = self.d
+        pe, pa = parent[2], parent[3]
+        exp = dict(pe)
+        exp["meta"] = derive(pe["meta"], model_meta(d, pa, "f2", meta2(d)), model_meta(d, atoms, "f2", meta2(d)))
+        exp["val"] = derive(pe["val"], model_val(d, pa), model_val(d, atoms))
+        if self.mode == "tc" and atoms != pa:
+            col = tuple(bool(TC_VARIANTS[self.k][1](v)) for v in TYPE_VALUES)
+            exp["__tc__"] = tuple(sorted(with_changes(dict(pe["__tc__"]), {self.k: col}).items()))
+        return exp
+
+    def apply(self, w, op):
+        try:
+            return self._apply(w, op)
+        except Exception as e:
+            return ("EXC", type(e).__name__, str(e)[:100])
+
+    def _apply(self, w, op):
+        target = w.objs[0] if op[1] == "BASE" else w.objs[-1]
+        cls = target[1]
+        if op[0] == "use":
+            got = probe2(cls, w.d)
+            if got != target[2]:
+                keys = diff_keys(got, target[2])
+                return ("use-mismatch", target[0], keys, {k: got.get(k) for k in keys[:3]},
+                        {k: target[2].get(k) for k in keys[:3]})
+            return ("used", target[0])
+        atoms = target[3]
+        w.counter += 1
+        if op[0] == "plain":
+            new = jsv.extend(cls)
+        elif op[0] == "without":
+            new = jsv.create(meta_schema=cls.META_SCHEMA,
+                             validators={kk: vv for kk, vv in cls.VALIDATORS.items() if kk != w.k},
+                             type_checker=cls.TYPE_CHECKER, id_of=cls.ID_OF)
+            atoms = atoms + (("nop", w.k),)
+        else:
+            kw = {"version": "verif-f2-%d" % w.counter} if op[0] == "ov+version" else {}
+            if w.mode == "tc":
+                new = jsv.extend(cls, type_checker=cls.TYPE_CHECKER.redefine(w.k, TC_VARIANTS[w.k][0]), **kw)
+            else:
+                new = jsv.extend(cls, validators={w.k: kw_nop if w.mode == "nop" else kw_fail}, **kw)
+            atoms = atoms + ((w.mode, w.k),)
+        w.objs.append(["new%d-%s" % (w.counter, op[0]), new, self.expected(target, atoms), atoms])
+        return ("created", w.objs[-1][0])
+
+    def check(self, w, op, obs):
+        if obs[0] == "EXC":
+            return ("F2|operation-raised|%s|%s" % (op[0], obs[1]), {"observed": obs})
+        if obs[0] == "use-mismatch":
+            who = "derived-class" if obs[1].startswith("new") else "draft-class"
+            return ("F2|%s-differs-when-used|%s|%s" % (who, self.mode, ",".join(obs[2][:3])),
+                    {"object": obs[1], "differs_in": obs[2], "observed": obs[3], "expected": obs[4],
+                     "probes": self.probes_named(obs[3], obs[4])})
+        for name, cls, exp, atoms in w.objs:
+            got = probe2(cls, w.d)
+            if got != exp:
+                keys = diff_keys(got, exp)
+                who = "derived-class" if name.startswith("new") else "draft-class"
+                o, e = {k: got.get(k) for k in keys[:3]}, {k: exp.get(k) for k in keys[:3]}
+                return ("F2|%s-changed|%s|%s" % (who, self.mode, ",".join(keys[:3])),
+                        {"object": name, "differs_in": keys, "observed": o, "expected": e,
+                         "probes": self.probes_named(o, e)})
+        return None
+
+    def probes_named(self, got, exp):
+        out = []
+        for key, lst in (("meta", meta2(self.d)), ("val", val2(self.d))):
+            if key in got and isinstance(got[key], tuple) and isinstance(exp.get(key), tuple):
+                out += [(key, lst[i], got[key][i], exp[key][i]) for i in range(len(lst)) if got[key][i] != exp[key][i]][:4]
+        return out
+
+
+# ================================================================ exploration
+def run_history(model, hist):
+    """Fresh world, the operations, the invariant after the last one."""
+    w = model.new_world()
+    obs = [model.apply(w, op) for op in hist]
+    bad = model.check(w, hist[-1], obs[-1])
+    return obs, bad, model.canon(w), len(w.objs)
+
+
+def explore(model, prefix, depth, isolate, obs_prefix=(), skip_root=False):
+    """Every history that extends `prefix` up to `depth` operations, un-merged (the prefix itself unless
+    skip_root).  isolate: each history in its own forked child; otherwise in this process, one after the other,
+    registries restored before each (the caller has forked this process for the purpose).  The observations of
+    a prefix must be the same every time it is replayed."""
+    res = {"transitions": 0, "states": set(), "violations": [], "outcomes": {}, "max_depth": 0, "samples": [],
+           "nontrivial": 0, "children": 0}
+
+    def visit(hist, obs_prefix, skip):
+        obs = list(obs_prefix)
+        if not skip:
+            if isolate:
+                res["children"] += 1
+                r = in_child(run_history, model, hist)
+            else:
+                G.restore()
+                r = ("ok", run_history(model, hist))
+            res["transitions"] += 1
+            res["max_depth"] = max(res["max_depth"], len(hist))
+            if r[0] == "escaped":
+                res["violations"].append((hist, ("exception-escaped-into-the-check|%s|%s" % (r[1], r[2]),
+                                                 {"exception": "%s: %s" % (r[1], r[3])})))
+                res["outcomes"]["exception-escaped"] = res["outcomes"].get("exception-escaped", 0) + 1
+                return
+            obs, bad, canon, nobjs = r[1]
+            if hist == tuple(prefix):
+                res["root_obs"] = tuple(obs)
+            oc = model.outcome_class(hist[-1], obs[-1])
+            res["outcomes"][oc] = res["outcomes"].get(oc, 0) + 1
+            res["states"].add(canon)
+            if any(o[0] in ("created", "registered", "re-registered", "cls-registered", "types-arg") for o in obs):
+                res["nontrivial"] += 1
+            if tuple(obs[:len(obs_prefix)]) != tuple(obs_prefix):
+                res["violations"].append((hist, ("same-history-different-observation",
+                                                 {"first": list(obs_prefix), "now": obs[:len(obs_prefix)]})))
+            if bad is not None:
+                res["violations"].append((hist, bad))
+            if len(res["samples"]) < 1 and len(hist) == depth and res["transitions"] % 7 == 3:
+                res["samples"].append({"family": model.family, "history": [list(o) for o in hist], "observations": obs})
+        if len(hist) < depth:
+            for op in model.ops(hist):
+                visit(hist + (op,), obs, False)
+
+    if not isolate:
+        gc.enable()          # many histories in this process (the inherited heap is frozen: collections stay cheap)
+    visit(tuple(prefix), tuple(obs_prefix), skip_root)
+    if not isolate:
+        # registries restored, and the restoration verified by re-probing a fresh world against the baseline
+        G.restore()
+        w = model.new_world()
+        bad = model.check(w, ("restore",), ("ok",))
+        if bad is not None or not G.unchanged():
+            res["violations"].append(((), ("registries-not-restored|" + (bad[0] if bad else "registry contents"),
+                                           bad[1] if bad else None)))
+    return res
+
+
 def depths(ctx):
-    return (3, 3, 0) if ctx.tier == "quick" else (4, 4, 0)
+    return (3, 2) if ctx.tier == "quick" else (4, 3)
+
+
+def f1_units():
+    units = [("F1", i, -1) for i, a in enumerate(OPS) if a in MODEL.ops(())]          # the histories of length 1
+    units += [("F1", i, j) for i, a in enumerate(OPS) if a in MODEL.ops(())
+              for j, b in enumerate(OPS) if b in MODEL.ops((a,))]
+    return units
 
 
 def plan(ctx):
     G.snapshot()
-    units = [(i, j) for i in range(len(OPS)) for j in range(len(OPS))]
-    units += [(i, -1) for i in range(len(OPS))]          # the histories of length 1
-    D0, D1, dev = depths(ctx)
+    ensure_baseline()
+    D1, D2 = depths(ctx)
+    f1, f2 = f1_units(), f2_units()
     return {
-        "units": units,
-        "rule": ("all sequences of %d derivation operations (redefine, redefine_many, remove on type checkers; extend "
-                 "with nothing / an overridden keyword / an added keyword / a type checker; create with and without "
+        "units": f1 + f2,
+        "rule": ("histories start in forked children of a process that has never used the package (no check_schema "
+                 "call, no validation, no probe), so the order of first use of every class / checker is the "
+                 "history's own; initial objects are compared with vectors recorded alone in such a child.  "
+                 "F1: all sequences of %d operations (redefine, redefine_many, remove on type checkers; extend with "
+                 "nothing / an overridden keyword / an added keyword / a type checker; create with and without "
                  "version; Validator(types=...); checks on a format-checker instance; FormatChecker.cls_checks; "
-                 "FormatChecker() and FormatChecker(formats=...)), each applied to an initial object or to the most "
-                 "recently derived one, to depth %d un-merged; after every history every object in existence (14 "
-                 "initial + derived) is re-probed with the battery (is_type 9x12, 10 validation probe schemas incl. "
-                 "id-relative references and check_schema, conforms 10x6) and compared with the vector predicted "
-                 "by the persistent-map model; registries are snapshotted/restored per history; "
-                 "distinct_nontrivial = histories that derive at least one object" % (len(OPS), D0)),
-        "bounds": {"ops": len(OPS), "depth": D0, "initial_objects": 14, "tier": ctx.tier},
+                 "FormatChecker() and FormatChecker(formats=...); use-new = probe every derived object, newest "
+                 "first), each applied to an initial object or to the most recently derived one, to depth %d "
+                 "un-merged (an operation on `the last derived` object is left out while no such object can exist: "
+                 "the history would be the one that names the default object; use-new likewise); histories of "
+                 "length <= 2 each in its own pristine child, the longer extensions of one 2-prefix one after the "
+                 "other in one pristine child with the registries restored in between (restoration verified by "
+                 "re-probing); after every history every object in existence (%d initial + derived, initial first) "
+                 "is re-probed with the battery (is_type 9x13, 12 validation probe schemas incl. id-relative "
+                 "references, the default resolver's scope, %d check_schema candidates, conforms 10x6) and compared "
+                 "with the vector predicted by the persistent-map model.  "
+                 "F2: per draft and per keyword its metaschema uses (+pattern, required, dependencies; %d "
+                 "(draft, keyword) pairs) x {never-failing override, always-failing override} and per draft x 2 "
+                 "type-checker redefinitions: all sequences to depth %d of {override on the draft class, on the last "
+                 "derived class, override + version, extend unchanged from either, create without the keyword, use "
+                 "last class, use draft class}, every history in its own pristine child; battery = check_schema on "
+                 "%d-%d candidates that single metaschema keywords reject, %d-%d validation probes (one per "
+                 "keyword), type table, default scope, served metaschema; the draft class and every derived class "
+                 "re-probed after the last operation; expectation of a derived class from the reference evaluator "
+                 "on the transformed metaschema file; distinct_nontrivial = histories that derive at least one object"
+                 % (len(OPS), D1, len(initial_objects()) + 1, len(F1_META),
+                    sum(len(keywords_used(d)) for d in DRAFTS), D2,
+                    min(len(meta2(d)) for d in DRAFTS), max(len(meta2(d)) for d in DRAFTS),
+                    min(len(val2(d)) for d in DRAFTS), max(len(val2(d)) for d in DRAFTS))),
+        "bounds": {"F1_ops": len(OPS), "F1_depth": D1, "F1_units": len(f1), "F2_units": len(f2), "F2_depth": D2,
+                   "F2_ops": len(f2_ops("nop")), "initial_objects": len(initial_objects()) + 1, "tier": ctx.tier},
         "assumptions": ["expected vectors of derived objects are predicted from the parent's vector by the model in "
-                        "apply_op (override/add changes only that keyword's probes; extend(cls) == cls)"],
+                        "apply_op (override/add changes only that keyword's probes; extend(cls) == cls)",
+                        "check_schema of a class reads the metaschema with the class's own keyword table and type "
+                        "checker, so an overridden keyword changes exactly the check_schema answers the reference "
+                        "evaluator says depend on it (mc/ref/spec.py on the metaschema file with the keyword deleted "
+                        "/ made unsatisfiable); classes with a foreign type checker in F1 are recorded at creation",
+                        "F2 re-probes only the draft class of the unit and the classes derived from it",
+                        "F1 histories longer than 2 share their process with the other extensions of the same "
+                        "2-prefix (registries restored in between); state kept elsewhere in the process by the code "
+                        "under test would show as a violation in a later history of that unit"],
     }
 
 
+def model_of(unit):
+    if unit[0] == "F1":
+        return MODEL
+    return Model2(unit[1], unit[2], unit[3])
+
+
 def run_unit(unit, ctx):
-    first, second = unit
-    D0, D1, dev = depths(ctx)
-    m = MODEL
-    if second == -1:
-        r = history.explore(m, [OPS[first]], 1, 1, dev)
-    else:
-        r = history.explore(m, [OPS[first]], D0, D1, dev, [OPS[second]])
-        r["transitions"] -= 1           # the length-1 prefix belongs to the (first, -1) unit
-        r["unmerged_histories"] -= 1
-    G.restore()
-    # restoration verified by re-probing the baseline on a fresh world
-    w = World()
-    bad = m.check(w, (), ("restore",), ("ok",))
+    D1, D2 = depths(ctx)
+    m = model_of(unit)
+    fam = unit[0]
+    results = []
     viol = []
-    if bad:
-        viol.append({"signature": "C16|registries-not-restored|" + bad[0], "size": 1,
-                     "case": {"history": []}, "detail": bad[1]})
-    for hist, (sig, detail) in r["violations"]:
-        viol.append({"signature": "C16|" + sig, "size": len(hist) * 100 + len(str(hist)),
-                     "case": {"history": [list(op) for op in hist]}, "detail": detail})
-    nontrivial = sum(v for k, v in r["outcomes"].items() if k.endswith(":created") or k.endswith("registered")
-                     or k.endswith("types-arg"))
-    return {"evaluations": r["transitions"], "nontrivial": nontrivial, "violations": viol,
-            "samples": r["samples"][:1], "outcomes": dict(r["outcomes"]),
-            "counters": {"states": len(r["states"]), "transitions": r["transitions"],
-                         "traces_validated_against_impl": r["transitions"],
-                         "unmerged_histories": r["unmerged_histories"], "max_depth": r["max_depth"]}}
+    forks = 0
+    if fam == "F1":
+        first, second = unit[1], unit[2]
+        if second == -1:
+            results.append(explore(m, [OPS[first]], 1, True))
+        else:
+            prefix = (OPS[first], OPS[second])
+            r = explore(m, prefix, 2, True)
+            results.append(r)
+            forks += 1
+            rest = in_child(explore, m, prefix, D1, False, r.get("root_obs", ()), True)
+            if rest[0] == "escaped":
+                viol.append({"signature": "C16|exception-escaped-into-the-check|%s|%s" % (rest[1], rest[2]), "size": 0,
+                             "case": {"family": "F1", "unit": [first, second], "tier": ctx.tier},
+                             "detail": {"exception": "%s: %s" % (rest[1], rest[3])}})
+            else:
+                results.append(rest[1])
+    else:
+        a = (unit[3], unit[2])
+        base = _baseline[("F2", unit[1])]
+        for n in range(D2 + 1):         # the model's answers, computed here once: the children inherit them
+            m.expected(["", None, base, ()], (a,) * n)
+        e1 = m.expected(["", None, base, ()], (a,))
+        predicted = sum(1 for k in ("meta", "val") for x, y in zip(base[k], e1[k]) if x != y)
+        results = [explore(m, [op], D2, True) for op in m.ops(())]
+    if not G.unchanged():
+        viol.append({"signature": "C16|registries-not-restored", "size": 1, "case": {"history": []},
+                     "detail": "a global registry of the exploring process changed although every history ran in a child"})
+    out = {"evaluations": 0, "nontrivial": 0, "violations": viol, "samples": [], "outcomes": {},
+           "counters": {"states": 0, "transitions": 0, "traces_validated_against_impl": 0, "unmerged_histories": 0,
+                        "max_depth": 0, "forked_children": forks}}
+    if fam == "F2":
+        # vacuity guard: answers the model says the unit's override changes (0 = the override is inert for the battery)
+        out["counters"]["F2_answers_the_override_must_change"] = predicted
+        out["counters"]["F2_units_with_inert_override"] = int(predicted == 0)
+    for r in results:
+        for hist, (sig, detail) in r["violations"]:
+            case = {"family": fam, "history": [list(op) for op in hist]}
+            if fam == "F2":
+                case["unit"] = list(unit[1:])
+            viol.append({"signature": "C16|" + sig, "size": len(hist) * 100 + len(str(hist)), "case": case,
+                         "detail": detail})
+        out["evaluations"] += r["transitions"]
+        out["nontrivial"] += r["nontrivial"]
+        out["samples"] += r["samples"][:1]
+        for k, v in r["outcomes"].items():
+            out["outcomes"][k] = out["outcomes"].get(k, 0) + v
+        c = out["counters"]
+        c["states"] += len(r["states"])
+        for k in ("transitions", "traces_validated_against_impl", "unmerged_histories"):
+            c[k] += r["transitions"]
+        c["forked_children"] += r["children"]
+        c["max_depth"] = max(c["max_depth"], r["max_depth"])
+        c["%s_histories" % fam] = c.get("%s_histories" % fam, 0) + r["transitions"]
+    out["samples"] = out["samples"][:1]
+    return out
 
 
 def replay(case, ctx):
     G.snapshot()
+    ensure_baseline()
+    if "unit" in case and case.get("family") == "F1":          # a whole unit from which an exception escaped
+        rest = in_child(explore, MODEL, (OPS[case["unit"][0]], OPS[case["unit"][1]]),
+                        3 if case.get("tier", "quick") == "quick" else 4, False, (), True)
+        return {"reproduced": rest[0] == "escaped", "observation": None, "problem": list(rest[1:]) if rest[0] == "escaped" else None}
     hist = tuple(tuple(op) for op in case["history"])
-    try:
-        w = history.rebuild(MODEL, hist[:-1])
-        obs = MODEL.apply(w, hist[-1])
-        bad = MODEL.check(w, hist[:-1], hist[-1], obs)
-    finally:
-        G.restore()
-    return {"reproduced": bad is not None, "observation": obs, "problem": bad}
+    if not hist:
+        return {"reproduced": not G.unchanged(), "observation": None, "problem": None}
+    m = MODEL if case.get("family", "F1") == "F1" else Model2(*case["unit"])
+    r = in_child(run_history, m, hist)
+    if r[0] == "escaped":
+        return {"reproduced": True, "observation": None, "problem": list(r[1:])}
+    obs, bad, canon, nobjs = r[1]
+    return {"reproduced": bad is not None, "observation": obs[-1], "problem": bad}
